@@ -130,15 +130,26 @@ def validation(ctx, rule="C12.validation"):
 
     # mode-count limits
     am = ctx.tree.func("program.py", "Program.assert_modes")
-    for role, key in (("total", "modes_total"), ("pnr", "num_pnr"), ("homodyne", "num_homodyne"), ("heterodyne", "num_heterodyne")):
-        g = find_guard(am, lambda t, s, key=key: isinstance(t, ast.Compare) and isinstance(t.ops[0], ast.Gt) and key in s,
-                       exc="CircuitError", polarity=TRUE)
+    def exceeds(key):
+        # raises when <something> > <limit named key>
+        def pred(a, v, raw, n):
+            r_ = rel(a, v)
+            return r_ is not None and r_[0] == ">" and key in ast.unparse(r_[2])
+        return pred
+
+    def differs(key):
+        def pred(a, v, raw, n):
+            r_ = rel(a, v)
+            return r_ is not None and r_[0] == "!=" and key in ast.unparse(a)
+        return pred
+
+    for role, key in (("total", "device.modes"), ("pnr", "'pnr_max'"), ("homodyne", "'homodyne_max'"), ("heterodyne", "'heterodyne_max'")):
+        g = guard(am, exceeds(key), exc="CircuitError")
         ctx.ob(rule, am.site, g is not None, "" if g else f"the '{role}' limit of the device is no longer enforced with CircuitError",
                role=f"limit:{role}", line=am.node.lineno)
     tm = ctx.tree.func("tdm/program.py", "TDMProgram.assert_modes")
-    for role, key, op in (("temporal", "temporal_max", ast.Gt), ("concurrent", "concurrent", ast.NotEq), ("spatial", "spatial", ast.NotEq)):
-        g = find_guard(tm, lambda t, s, key=key, op=op: isinstance(t, ast.Compare) and isinstance(t.ops[0], op) and key in s,
-                       exc="CircuitError", polarity=TRUE)
+    for role, key, pr in (("temporal", "'temporal_max'", exceeds), ("concurrent", "'concurrent'", differs), ("spatial", "'spatial'", differs)):
+        g = guard(tm, pr(key), exc="CircuitError")
         ctx.ob(rule, tm.site, g is not None, "" if g else f"the '{role}' limit of the time-domain device is no longer enforced",
                role=f"limit:{role}", line=tm.node.lineno)
     ctx.floor(rule, 19)
